@@ -22,7 +22,7 @@ def py_children(x):
     if isinstance(x, U.Node):
         return x.children
     if hasattr(type(x), '__optree_dataclass_fields__'):
-        return [getattr(x, n) for n in type(x).__optree_dataclass_fields__[0]]
+        return [getattr(x, n, None) for n in type(x).__optree_dataclass_fields__[0]]
     if isinstance(x, dict):
         return list(dict.values(x))
     if isinstance(x, (tuple, list, deque)):
@@ -48,7 +48,11 @@ def clone(x):
         return type(x)([clone(c) for c in x.children], x.aux)
     if hasattr(type(x), '__optree_dataclass_fields__'):
         import dataclasses as _dc
-        return type(x)(**{f.name: (clone(getattr(x, f.name)) if f.name in type(x).__optree_dataclass_fields__[0] else getattr(x, f.name)) for f in _dc.fields(x)})
+        new = object.__new__(type(x))  # not through __init__ / __post_init__ (an instrumented callback)
+        for f in _dc.fields(x):
+            v = getattr(x, f.name)
+            object.__setattr__(new, f.name, clone(v) if f.name in type(x).__optree_dataclass_fields__[0] else v)
+        return new
     if isinstance(x, defaultdict):
         return defaultdict(x.default_factory, [(k, clone(v)) for k, v in dict.items(x)])
     if isinstance(x, OrderedDict):
